@@ -68,8 +68,8 @@ type vObs struct {
 	O  omap[vOuter] `json:"o"`
 	I  omap[vInner] `json:"i"`
 	St omap[vOuter] `json:"st"`
-	R  []vOuter            `json:"r"`
-	Q  []vInner            `json:"q"`
+	R  []vOuter     `json:"r"`
+	Q  []vInner     `json:"q"`
 }
 
 type vStep struct {
